@@ -9,7 +9,11 @@ set -u
 HERE="$(cd "$(dirname "$0")" && pwd)"
 export GOFLAGS=-mod=mod GOPROXY=off GOSUMDB=off GOTOOLCHAIN=local
 unset GOWORK
-(cd "$HERE/checker" && go build -o "$HERE/bin/verifchk" .) || exit 2
+BIN="${VERIFCHK:-}"
+if [ -z "$BIN" ]; then
+  BIN="$HERE/bin/verifchk"
+  (cd "$HERE/checker" && go build -o "$BIN" .) || exit 2
+fi
 WT=$(mktemp -d /tmp/vseedtest.XXXXXX)
 EV=$(mktemp -d /tmp/vseedtest-ev.XXXXXX)
 trap 'git -C /repo worktree remove --force "$WT" >/dev/null 2>&1; rm -rf "$WT" "$EV"' EXIT
@@ -28,7 +32,7 @@ for d in $DIRS; do
   git -C "$WT" checkout -q -- . && git -C "$WT" clean -qfd
   if ! git -C "$WT" apply "$d/patch.diff" 2>/dev/null; then echo "$id SKIP: patch does not apply"; continue; fi
   if ! (cd "$WT" && go build ./... >/dev/null 2>&1); then echo "$id SKIP: does not compile"; continue; fi
-  out=$(VERIF_REPO="$WT" VERIF_DIR="$EV" VERIF_ONLY="${VERIF_ONLY:-}" "$HERE/bin/verifchk" all quick 2>&1)
+  out=$(VERIF_REPO="$WT" VERIF_DIR="$EV" VERIF_ONLY="${VERIF_ONLY:-}" "$BIN" all quick 2>&1)
   fired=$(echo "$out" | sed -n 's/^VIOLATION property=\([A-Z0-9]*\) .*/\1/p' | sort -u | tr '\n' ',' | sed 's/,$//')
   rules=$(echo "$out" | grep -v '^KNOWN-FINDING' | grep -o '\[R[0-9]*\.[0-9a-z]*\]' | sort -u | tr '\n' ' ')
   caught=no
